@@ -77,6 +77,40 @@ fn contains_forbidden_node(e: &E) -> bool {
 }
 
 /// The oracle: reference grammar versus the public parse entry point.
+/// Round trip over the whole vocabulary: the canonical text of a tree parses to exactly that tree.
+pub fn judge_full(t: &E) -> Verdict {
+    let Some(text) = crate::render::canonical(t) else { return Verdict::Skip("tree has no text form") };
+    if matches!(t.leaves().first(), Some(E::G(_))) {
+        return Verdict::Skip("starts with an option word");
+    }
+    match catch(|| parse(&text)) {
+        Err(p) => Verdict::Fail(format!("parse panicked on {text:?}: {p}")),
+        Ok(Err(e)) => Verdict::Fail(format!("printed tree {t:?} as {text:?}; parse returned Err({e})")),
+        Ok(Ok((_, x))) => {
+            let got = from_ast(&x);
+            // option words inside the expression come back as -true (C13 decides the options)
+            let want = options_as_true(t);
+            if got != want {
+                Verdict::Fail(format!("round trip of {text:?}: expected {want:?}, got {got:?}"))
+            } else {
+                Verdict::Pass { nt: t.n_operators() >= 2, class: "round trip over the whole vocabulary" }
+            }
+        }
+    }
+}
+
+fn options_as_true(e: &E) -> E {
+    match e {
+        E::G(_) => E::T(Tst::True),
+        E::Not(a) => E::not(options_as_true(a)),
+        E::Prec(a) => options_as_true(a),
+        E::And(a, b) => E::and(options_as_true(a), options_as_true(b)),
+        E::Or(a, b) => E::or(options_as_true(a), options_as_true(b)),
+        E::List(a, b) => E::list(options_as_true(a), options_as_true(b)),
+        o => o.clone(),
+    }
+}
+
 pub fn judge_words(ws: &[W]) -> Verdict {
     if ws.is_empty() {
         return Verdict::Skip("empty sequence (C06 covers blank input)");
@@ -132,6 +166,9 @@ fn word_from_text(s: &str) -> Option<W> {
 }
 
 pub fn replay(case: &Value) -> Result<Verdict, String> {
+    if case["kind"] == "full-vocabulary" || case["kind"] == "tree" {
+        return Ok(judge_full(&crate::term::decode_expr(case["tree"].as_str().ok_or("no tree")?)?));
+    }
     if case["kind"] == "fuzz-input" {
         return crate::fuzzrun::replay(case);
     }
@@ -369,6 +406,55 @@ pub fn run(ctx: &Ctx) -> Report {
     });
     total.merge(random);
 
+    // the grammar is the same whatever the primaries are: (a) every ordered pair of keywords (one
+    // representative primary each, 60+ kinds) in arrangements where the pair is adjacent, after a
+    // group, after an OR, before a ','; (b) random trees and interaction triples over the whole
+    // vocabulary - printed canonically, parse must return exactly the tree
+    let full_json = |t: &E| json!({"kind": "full-vocabulary", "tree": crate::term::encode_expr(t), "text": crate::render::canonical(t)});
+    let kinds: Vec<E> = crate::checks::c05::leaf_per_keyword().into_iter().filter(|l| !matches!(l, E::G(_))).collect();
+    let mut reps: Vec<E> = vec![];
+    let mut seen_kw = std::collections::BTreeSet::new();
+    for l in &kinds {
+        if let Some(w) = crate::render::primary_words(l, &mut crate::render::Canon) {
+            if seen_kw.insert(w[0].text.clone()) {
+                reps.push(l.clone());
+            }
+        }
+    }
+    let pairs = run_shards(reps.len(), |i| {
+        let mut st = Stats::new();
+        let x = || E::T(Tst::Name("x".into()));
+        for b in &reps {
+            let a = reps[i].clone();
+            for t in [
+                E::and(E::and(x(), a.clone()), b.clone()),
+                E::and(E::or(x(), a.clone()), b.clone()),
+                E::or(x(), E::and(a.clone(), b.clone())),
+                E::list(E::and(a.clone(), b.clone()), x()),
+                E::or(E::or(x(), a.clone()), b.clone()),
+                E::and(E::not(a.clone()), b.clone()),
+            ] {
+                let v = judge_full(&t);
+                st.record(&v, stable_hash(&t), true, || full_json(&t));
+            }
+        }
+        st.samples.truncate(1);
+        st
+    });
+    total.merge(pairs);
+    total.exhaustive_parts.push(format!("every ordered pair of the {} keywords (one representative primary each) in six arrangements", reps.len()));
+    let mut kinds3 = crate::combo::all_kinds();
+    kinds3.retain(|l| crate::render::canonical(l).is_some());
+    let tr = crate::combo::run_triples(ctx.seed, &kinds3, ctx.tier.pick(48, 3), judge_full, full_json);
+    total.merge(tr);
+    let fullrnd = run_shards(16, |shard| {
+        let mut st = Stats::new();
+        let strat = crate::gen::related(crate::gen::expr_over(crate::gen::text_leaf(), 6, 24, true), true);
+        run_prop(&mut st, ctx.seed, "C01-full", shard as u64, ctx.tier.pick(100_000u32, 1_000_000u32) / 16, &strat, judge_full, |t| full_json(t));
+        st
+    });
+    total.merge(fullrnd);
+
     // nesting up to the bound of 64 and long operator chains (counters, recursion limits);
     // run on a thread with a large stack: the trees are up to 2500 levels deep
     let st = std::thread::scope(|sc| std::thread::Builder::new().stack_size(1 << 30).spawn_scoped(sc, || {
@@ -517,7 +603,7 @@ pub fn run(ctx: &Ctx) -> Report {
     Report {
         stats: total,
         rule: format!(
-            "exhaustive: every word sequence of length 1..={max_len} over {{( ) ! , -a -and -o -or -true '-name x' -print}} rendered with single blanks; random: trees of depth<=8 printed with minimal+redundant parentheses and 0-2 word edits (insert/delete/swap), and round trips parse(print(t))==t. Oracle: hand-written recursive-descent reference grammar (left folds, ! > AND > OR > ','). Non-trivial: accepted sequence using >=2 binary operator levels or '!' or parentheses; or rejected sequence whose longest sentence prefix is non-empty (no prefix may be returned). Distinct: by word sequence."
+            "exhaustive: every word sequence of length 1..={max_len} over {{( ) ! , -a -and -o -or -true '-name x' -print}} rendered with single blanks; random: trees of depth<=8 printed with minimal+redundant parentheses and 0-2 word edits (insert/delete/swap), and round trips parse(print(t))==t; the same round trip over the whole vocabulary (every ordered pair of keywords in six arrangements, interaction triples, random trees with related strings). Oracle: hand-written recursive-descent reference grammar (left folds, ! > AND > OR > ','). Non-trivial: accepted sequence using >=2 binary operator levels or '!' or parentheses; or rejected sequence whose longest sentence prefix is non-empty (no prefix may be returned). Distinct: by word sequence."
         ),
         assumptions: vec![
             "the three primaries -true, '-name x', -print stand for all primaries (C05 covers the vocabulary)".into(),
